@@ -124,7 +124,8 @@ func genMatchCases(r *Rng, n int) {
 		}
 		impl := runMatch(expr, item, ctx.Names, ctx.Values)
 		emit(Case{"kind": "match", "expr": hx([]byte(expr)), "text": expr, "item": canonKeysOnly(item), "names": namesList(ctx.Names),
-			"values": valuesItem(ctx.Values), "tree": tree, "bareReserved": ctx.BareReserv, "impl": impl})
+			"values": valuesItem(ctx.Values), "tree": tree, "bareReserved": ctx.BareReserv, "impl": impl,
+			"clients": clientsMatch(expr, item, ctx.Names, ctx.Values, impl, true)})
 	}
 }
 
@@ -143,7 +144,8 @@ func genUpdateCases(r *Rng, n int) {
 		expr := ctx.PrintUpdate(acts)
 		impl := runUpdate(expr, item, ctx.Names, ctx.Values)
 		emit(Case{"kind": "update", "expr": hx([]byte(expr)), "text": expr, "item": canonKeysOnly(item), "names": namesList(ctx.Names),
-			"values": valuesItem(ctx.Values), "tree": acts, "bareReserved": ctx.BareReserv, "impl": impl})
+			"values": valuesItem(ctx.Values), "tree": acts, "bareReserved": ctx.BareReserv, "impl": impl,
+			"clients": clientsUpdate(expr, item, ctx.Names, ctx.Values, impl, true)})
 	}
 }
 
